@@ -462,6 +462,26 @@ def _il_oracle(case):
         # (in default mode a lexicon and its extensions act like several selected lexicons: wn
         # tells apart placeholders of one ILI by the lexicon they were created from - DESIGN 8)
         return out
+    # hypernym_paths / min_depth / max_depth of every synset against the path enumeration on the
+    # mapped graph
+    for a in rs:
+        exp = sorted(c12.reference_paths(view, a, _HYP))
+        got = observe.call(bykey[a.key].hypernym_paths)
+        if not _raised(got):
+            got = sorted([c12._kstr(key_of(x)) for x in path] for path in got)
+        if got != exp:
+            out.append(Disc('interlingual:hypernym-paths-differ', f'hypernym_paths({a.key})',
+                            exp, got))
+            if len(out) >= _MAX_DISCS:
+                return out
+            continue
+        depths = [len(p) for p in exp] or [0]
+        gd = [observe.call(bykey[a.key].min_depth), observe.call(bykey[a.key].max_depth)]
+        if gd != [min(depths), max(depths)]:
+            out.append(Disc('interlingual:depth-differs', f'min/max_depth({a.key})',
+                            [min(depths), max(depths)], gd))
+    if out:
+        return out
     # shortest_path between any two nodes of the mapped graph, placeholders included: the
     # objects are the ones wn itself hands out on hypernym paths
     for a in rs:
@@ -528,7 +548,7 @@ def _il_dist(view, node, owner):
 
 SUBS = [
     Sub('interlingual', _il_oracle, _il_classify, strategy=_il_cases,
-        budget={'quick': 60, 'thorough': 1500}, case_timeout=120, timeout_is_violation=True,
+        budget={'quick': 250, 'thorough': 1500}, case_timeout=120, timeout_is_violation=True,
         sample=lambda c: c, require_tags=('common->=2-placeholder-ancestors',)),
     Sub('split-lexicons', oracle, _classify_split, strategy=_split,
         budget={'quick': 30, 'thorough': 400}, case_timeout=600, timeout_is_violation=True,
